@@ -83,6 +83,9 @@ type config struct {
 	// Cwd: the directory (relative to the module root) the run is started from - "" the root, "a" the first
 	// entrypoint's own directory (as go generate does); the entrypoints are then given relative to it
 	Cwd string `json:"cwd,omitempty"`
+	// Force: regenerate even what the cache would skip - it widens nothing: which packages are PROCESSED is decided by
+	// the entrypoints and All alone (seeded change C07-n: Force made every loaded local package count as selected)
+	Force bool `json:"force,omitempty"`
 }
 
 func genConfig(r *rand.Rand) config {
@@ -116,6 +119,7 @@ func genConfig(r *rand.Rand) config {
 		// import paths instead of directories
 		cfg.Entries = []string{mod + "/a", mod + "/c"}
 	}
+	cfg.Force = r.Intn(3) == 0
 	return cfg
 }
 
@@ -358,7 +362,7 @@ func judge(cfg config, ps []layout.Pkg, before, after map[string]fixture.Entry, 
 
 func (cfg config) fingerprint() string {
 	var b strings.Builder
-	fmt.Fprintf(&b, "%s|%v|%v|%v|%s|%s|", cfg.Base, cfg.All, cfg.Root, cfg.Stale, cfg.Sum, cfg.Cwd)
+	fmt.Fprintf(&b, "%s|%v|%v|%v|%s|%s|%v|", cfg.Base, cfg.All, cfg.Root, cfg.Stale, cfg.Sum, cfg.Cwd, cfg.Force)
 	for _, g := range cfg.Gens {
 		var ks []string
 		for k, v := range g.Pkg {
@@ -435,7 +439,7 @@ func (p *prop) runConfig(c core.Case, w *core.Worker, res *core.Result, cfg conf
 	defer m.Remove()
 	ps := build(m, cfg)
 	before := m.Snapshot()
-	args := specgen.Args{Entrypoint: cfg.Entries, OutputFileBaseName: cfg.Base, All: cfg.All}
+	args := specgen.Args{Entrypoint: cfg.Entries, OutputFileBaseName: cfg.Base, All: cfg.All, Force: cfg.Force}
 	runDir := m.Root
 	if cfg.Cwd != "" {
 		runDir = filepath.Join(m.Root, cfg.Cwd)
@@ -531,7 +535,7 @@ func (p *prop) runConfig(c core.Case, w *core.Worker, res *core.Result, cfg conf
 	after := m.Snapshot()
 	fails := judge(cfg, ps, before, after, m, run)
 	for _, f := range fails {
-		res.Fail(f[0], f[1], f[2]+fmt.Sprintf("\n(config: base=%s all=%v root=%v stale=%v sum=%s entries=%v cwd=%q)", cfg.Base, cfg.All, cfg.Root, cfg.Stale, cfg.Sum, cfg.Entries, cfg.Cwd), cfg)
+		res.Fail(f[0], f[1], f[2]+fmt.Sprintf("\n(config: base=%s all=%v force=%v root=%v stale=%v sum=%s entries=%v cwd=%q)", cfg.Base, cfg.All, cfg.Force, cfg.Root, cfg.Stale, cfg.Sum, cfg.Entries, cfg.Cwd), cfg)
 	}
 	res.Count("paths_snapshotted", int64(len(before)))
 	cr, ch, de := fixture.Diff(before, after)
